@@ -128,8 +128,8 @@ let parse_op (toks : string list) : (string * op option * string) =
   | ["noop"] -> "noop", None, res
   | _ -> failwith ("bad op: " ^ S.concat " " toks)
 
-let kf_of (o : op) : string =
-  if kf_C13_2 o then "kf_C13_2" else "none"
+(* no known-finding class is left (C13-F1, C13-F2, C13-F3 are repaired) *)
+let kf_of (o : op) : string = if kf_C13_any o then "kf_C13" else "none"
 
 let run (path : string) =
   let lines = read_lines path in
